@@ -83,6 +83,14 @@ def gen_case(ctx, enz, q):
             f["q"] = labels[0]
             labels[0] += 1
             feats.append(f)
+        if rng.random() < 0.35 and region[1] - region[0] >= 2:
+            # a provenance feature left by an earlier level (type source, /plasmid naming a plasmid that is not an input
+            # of this assembly) inside the retained stretch: an ordinary input feature of this assembly
+            x = rng.randrange(region[0], region[1] - 1)
+            y = rng.randrange(x + 1, region[1] + 1)
+            feats.append({"type": "source", "q": labels[0], "parts": [[x, y, 0]], "plasmid": "prev%d" % labels[0],
+                          "shape": "provenance-of-an-earlier-level"})
+            labels[0] += 1
         rng.shuffle(feats)
         i = len(elements)
         rot = gens.pick_origin(rng, elem) if rng.random() < 0.85 else 0
@@ -111,7 +119,7 @@ def gen_case(ctx, enz, q):
                 order.append(i)
     rng.shuffle(order)
     return {"enz": enz["name"], "q": q, "elements": elements, "order": order, "expected": ch["expected"],
-            "second": rng.choice([None, "again", "add", "drop"]),
+            "second": rng.choice([None, "again", "add", "drop", "rewrap-add", "rewrap-drop"]),
             "id": rng.choice(["prod", "pX_1", "assembly", "A" * 15]), "name": rng.choice(["prod", "name1"])}
 
 
@@ -152,9 +160,11 @@ def c08_oracle(case, inputs, view):
             cov = {x for pos, _ in _covered(f["parts"], n) for x in pos}
             src[f["q"]] = {"f": f, "seq": inp["seq"], "inside": bool(cov) and cov <= retained, "elem": ei}
     seen = {}
-    for f in view["features"]:
-        if "plasmid" in f:
-            continue
+    ids = [e["rec"]["id"] for e in case["elements"]]
+    gen = generated_sources(view["features"], ids)
+    for fi, f in enumerate(view["features"]):
+        if fi in gen:
+            continue            # a provenance feature this assembly generated (C09's subject)
         lab = f["q"]
         if lab is None or lab not in src:
             V.append({"signature": "C08:unknown-feature", "what": "product feature %s is not an image of an input feature" % f})
@@ -187,10 +197,13 @@ def provenance(view, inputs, ids, tag):
     pseq = view["seq"]
     n = len(pseq)
     cover = [0] * n
-    for f in view["features"]:
+    gen = generated_sources(view["features"], ids)
+    for fi, f in enumerate(view["features"]):
         if "plasmid" not in f:
             continue
         pid = f["plasmid"][0] if isinstance(f["plasmid"], list) else f["plasmid"]
+        if fi not in gen and pid not in ids and f.get("q") is not None:
+            continue            # a labelled provenance feature inherited from an input (left there by an earlier level)
         for pos, _ in _covered(f["parts"], n):
             for x in pos:
                 cover[x] += 1
@@ -231,7 +244,13 @@ def run_annot(case):
         # the same entities again after their records were annotated further in place: the statement is about the
         # feature tables the records carry when assemble() is called
         from Bio.SeqFeature import SeqFeature, FeatureLocation
+        import copy
         lab = 5000
+        first_ents = ents
+        if case["second"].startswith("rewrap"):
+            # the same plasmids re-annotated: NEW records (copies with another feature table) in NEW typed objects,
+            # while the objects of the first assembly are still alive and have been used
+            ents = [type(e)(copy.deepcopy(e.record)) for e in first_ents]
         for ei, e in enumerate(case["elements"]):
             rec = ents[ei].record
             n = len(rec.seq)
@@ -244,7 +263,7 @@ def run_annot(case):
                                                    qualifiers={"label": ["L%d" % (lab + ei)]}))
             if case["second"] == "again":
                 rec.features.pop()      # the very same inputs a second time
-            elif rec.features and case["second"] == "drop":
+            elif rec.features and case["second"] in ("drop", "rewrap-drop"):
                 del rec.features[0]
         inputs2 = [recutil.dump_record(e.record) for e in ents]
         obs2, prod2 = implutil.observe_assembly(ents[q], [ents[i] for i in case["order"]], id=case["id"], name=case["name"])
@@ -324,7 +343,7 @@ def c_product(case, res, ids=None):
         g = dict(f)
         if "plasmid" in f:
             # provenance features inherited from an earlier level keep the (empty) label they had in the input
-            g["q"] = 900 + ids.index(gen[i]) if i in gen else None
+            g["q"] = 900 + ids.index(gen[i]) if i in gen else f.get("q")
         feats.append(g)
     return "(Some %s)" % recutil.c_record({"seq": view["seq"], "features": feats})
 
